@@ -55,7 +55,58 @@ def stream_keys(ctx):
                           fingerprint_of=lambda b: b.split(":")[0] + ":" + " ".join(b.split(":")[1].split()[:1]) if ":" in b else b[:60])
 
 
+def seq_stream(profile, prop):
+    def run(ctx):
+        prefix = os.path.join(ctx["work"], f"seq-{profile}-{ctx['seed']}")
+        tier = ctx["tier"]
+        mult = ctx.get("mult", 1)
+        cmd = [os.path.join(BIN, "seq"), "run", profile, tier, str(ctx["seed"]), prefix, str(mult)]
+        r = generic_stream(f"seq:{profile}", cmd, prefix, prop, ctx)
+        return r
+    run.__name__ = f"seq_{profile}"
+    return run
+
+
+SEQ_TRUST = ["hashbrown raw-entry API and dashmap behave as documented (modelled by contract, not verified)",
+             "allocation never fails; usize arithmetic in the arenas is Nat (no overflow)",
+             "serde_json text layer is exercised, not modelled"]
+
 PROPS = {
+    "C01": {
+        "streams": [seq_stream("core", "C01"), seq_stream("views", "C01")],
+        "trusted_base": SEQ_TRUST,
+        "assumptions": ["concurrent interner: one-thread semantics here; schedules are C03/C05"],
+    },
+    "C02": {
+        "streams": [seq_stream("core", "C02"), seq_stream("growth", "C02")],
+        "trusted_base": SEQ_TRUST,
+        "assumptions": ["concurrent interner: one-thread semantics here; the re-check under the shard lock is C03"],
+    },
+    "C07": {
+        "streams": [seq_stream("exhaust", "C07"), seq_stream("mem", "C07")],
+        "trusted_base": SEQ_TRUST + ["Rodeo: a failing call returns no new state in the model; that the code mutated nothing is checked by the post-failure sweeps of the correspondence run"],
+        "assumptions": [],
+    },
+    "C08": {
+        "streams": [seq_stream("mem", "C08"), seq_stream("clone", "C08")],
+        "trusted_base": SEQ_TRUST,
+        "assumptions": [],
+    },
+    "C10": {
+        "streams": [seq_stream("iter", "C10"), seq_stream("core", "C10")],
+        "trusted_base": SEQ_TRUST + ["std's slice::Iter / Enumerate (modelled as a list state machine)"],
+        "assumptions": [],
+    },
+    "C13": {
+        "streams": [seq_stream("clear", "C13")],
+        "trusted_base": SEQ_TRUST,
+        "assumptions": [],
+    },
+    "C16": {
+        "streams": [seq_stream("static", "C16"), seq_stream("wrap", "C16")],
+        "trusted_base": SEQ_TRUST,
+        "assumptions": [],
+    },
     "C11": {
         "streams": [stream_keys],
         "trusted_base": ["rustc's layout of Option<NonZero*> (size_of check is harness-only)",
